@@ -303,6 +303,42 @@ def parse_trace(text, scratch_prefix):
     return out
 
 
+def job_manyfail(res, rng, sc, w, job):
+    """Very many failures in one run: the status is 1 whatever their number (255, 256, 257, 512 unlistable directories)."""
+    home = world_writable_home(sc)
+    root = os.path.join(w, "t")
+    os.mkdir(root)
+    n = job["n"]
+    for i in range(n):
+        os.mkdir(os.path.join(root, "d%04d" % i))
+        open(os.path.join(root, "d%04d" % i, "f"), "w").close()
+    for i in range(5):
+        open(os.path.join(root, "ok%d" % i), "w").close()
+    for i in range(n):
+        os.chmod(os.path.join(root, "d%04d" % i), 0)
+    try:
+        for q in ("path from t into list", "path from t dfs into list", "count(*) from t into list"):
+            r = runner.run([q], cwd=w, home=home, uid=NOBODY)
+            res.ev()
+            ctx = {"query": q, "unlistable_directories": n, "result": {"rc": r.rc, "verdict": r.verdict, "stderr_head": r.err[:200].decode("utf-8", "replace")}}
+            if r.verdict != "ok":
+                if r.verdict in ("busy", "blocked"):
+                    res.viol("`%s` with %d unlistable directories: %s" % (q, n, r.verdict), ctx)
+                continue
+            nerr = r.err.count(b"Permission denied")
+            rows = r.rows()
+            want_rows = [str(n + 5)] if q.startswith("count") else None
+            if r.rc != 1 or nerr != n or (want_rows is not None and rows != want_rows) or (want_rows is None and len(rows) != n + 5):
+                res.viol("`%s` with %d unlistable directories: status %s, %d diagnostics, %d rows (expected status 1, %d diagnostics, %s)" % (
+                    q, n, r.rc, nerr, len(rows), n, "count %d" % (n + 5) if want_rows else "%d rows" % (n + 5)), ctx)
+                continue
+            res.cover("eacces_paths", "many-failures-%d" % n)
+            res.nt("manyfail|%d|%s" % (n, q))
+    finally:
+        for i in range(n):
+            os.chmod(os.path.join(root, "d%04d" % i), 0o755)
+
+
 def job_sysfault(res, rng, sc, w, job):
     home = runner.make_home(sc, config="")
     root = os.path.join(w, "t")
@@ -492,7 +528,7 @@ def run_job(job):
     os.chmod(sc, 0o755)
     try:
         w = runner.work_dir(sc)
-        {"eacces": job_eacces, "sysfault": job_sysfault, "stdout": job_stdout}[job["kind"]](res, rng, sc, w, job)
+        {"eacces": job_eacces, "sysfault": job_sysfault, "stdout": job_stdout, "manyfail": job_manyfail}[job["kind"]](res, rng, sc, w, job)
     finally:
         runner.rm_scratch(sc)
     return res
@@ -505,6 +541,8 @@ def main(chk):
         jobs.append({"id": "ea%d" % i, "kind": "eacces", "seed": job_seed(chk.seed, "C17", "e%d" % i)})
     for i in range(48 if quick else 300):
         jobs.append({"id": "sf%d" % i, "kind": "sysfault", "seed": job_seed(chk.seed, "C17", "s%d" % i), "max_faults": 40 if quick else 0})
+    for n_ in (255, 256, 257, 512) if quick else (1, 127, 128, 255, 256, 257, 511, 512, 513, 1024):
+        jobs.append({"id": "many%d" % n_, "kind": "manyfail", "seed": 0, "n": n_})
     for pk in ("streamed", "ordered", "aggregate", "grouped"):
         for fmt in FORMATS:
             jobs.append({"id": "so-%s-%s" % (pk, fmt), "kind": "stdout", "seed": job_seed(chk.seed, "C17", "o%s%s" % (pk, fmt)), "paths": [pk],
